@@ -335,6 +335,27 @@ def wp1(F, R):
 def hv3(F, R):
     for name, table, field in (("get_volume_by_id", "open_volumes", "raw_volume"), ("get_dir_by_id", "open_dirs", "raw_directory"), ("get_file_by_id", "open_files", "raw_file")):
         fn = F.fn(VMD + "::" + name)
+        # iterator form: self.<table>.iter().position(|x| x.<handle> == id).ok_or(Error::BadHandle)
+        ds = fn.defs().get(0, [])
+        if len(ds) == 1 and ds[0][0] == "call":
+            ct = fn.call_term(ds[0][2], ds[0][1])
+            if (ct[1] or "").endswith(("Option::ok_or", "Option::ok_or_else")):
+                from .rules_guard import closure_equalities, _iter_table
+                pos = strip_refs(ct[2][0])
+                errv = strip_refs(ct[2][1])
+                okp = pos[0] == "call" and (pos[1] or "").endswith("Iterator::position") and _iter_table(fn, pos) == table
+                conj = closure_equalities(F, pos[2][1]) if okp else (False, [], [])
+                okp = okp and conj[0] and len(conj[1]) == 1 and conj[1][0][0] == (field,) and conj[1][0][1] is not None and conj[1][0][1][:2] == ("arg", 2)
+                # position() counts from the start of the same iteration: the index of the matching entry
+                it0 = strip_refs(pos[2][0]) if okp else None
+                R.require(okp, fn, "exact:" + name, "%s: the lookup must be self.%s.iter().position(|x| x.%s == <the handle asked for>); got %s (%s)" % (name, table, field, tstr(ct)[:100], conj[2]), fn.loc(0))
+                isbad = errv[0] == "agg" and errv[2] and errv[2].endswith("Error::BadHandle")
+                if not isbad and errv[0] == "agg" and errv[1] == "Closure":
+                    from .mir import inline_closure
+                    b_ = inline_closure(F, errv, [])
+                    isbad = b_ is not None and strip_refs(b_)[0] == "agg" and (strip_refs(b_)[2] or "").endswith("Error::BadHandle")
+                R.require(isbad, fn, "badhandle:" + name, "%s must fail with BadHandle only" % name, fn.loc(0))
+                continue
         oks = ok_returns(fn)
         ok = len(oks) == 1
         det = "expected one Ok return, found %d" % len(oks)
@@ -378,65 +399,99 @@ def at1(F, R):
     for nm, v in ATTR_BITS.items():
         got = F.const("filesystem::attributes::Attributes::" + nm)
         R.require(got == v, None, "const:" + nm, "Attributes::%s is %#x, the FAT specification says %#x" % (nm, got, v), okdetail="%s = %#x" % (nm, v))
-    bits = ("place", ("arg", 1), ("0",))
+    # the predicates and set_archive are functions of one byte: decided by evaluating them for all 256 values (through
+    # whatever private helper they are written with)
+    from .absint import Interp, State, Undecided
+    from .absval import const, agg as _agg, int_const, is_int, is_agg
+    adt = "filesystem::attributes::Attributes"
+
+    def run1(fn, byte, extra=()):
+        I = Interp(F, mode="bv", max_paths=64)
+        st = State()
+        val = _agg("struct", adt, 0, [const(byte, 8)])
+        cell = I.heap_alloc(st, val)
+        byref = fn.locals[1]["ty"].lstrip().startswith("&")
+        outs = I.run(fn, [cell if byref else val] + list(extra), st, 0)
+        return I, st, cell, outs
     for pn, cn in ATTR_PREDS.items():
         fn = F.fn("filesystem::attributes::Attributes::" + pn)
-        t = ret(fn)
         m = ATTR_BITS[cn]
-        ok = False
-        if t is not None and t[0] == "bin" and t[1] == "Eq":
-            for a, z in ((t[2], t[3]), (t[3], t[2])):
-                if z[:2] == ("c", m) and a[0] == "bin" and a[1] == "BitAnd":
-                    for x, y in ((a[2], a[3]), (a[3], a[2])):
-                        if y[:2] == ("c", m) and tmatch(x, bits) is not None:
-                            ok = True
-        if t is not None and not ok and m != 0x0F and t[0] == "bin" and t[1] == "Ne":       # (bits & X) != 0 for single-bit masks
-            for a, z in ((t[2], t[3]), (t[3], t[2])):
-                if z[:2] == ("c", 0) and a[0] == "bin" and a[1] == "BitAnd" and any(y[:2] == ("c", m) and tmatch(x, bits) is not None for x, y in ((a[2], a[3]), (a[3], a[2]))):
-                    ok = True
-        R.require(ok, fn, "pred:" + pn, "%s must be (bits & %s) == %s with %s = %#x, got %s" % (pn, cn, cn, cn, m, tstr(t) if t else None), fn.loc(0))
+        wrong = None
+        try:
+            for byte in range(256):
+                I, st, cell, outs = run1(fn, byte)
+                got = {int_const(rv) if is_int(rv) else None for rv, _s in outs}
+                if got != {1 if (byte & m) == m else 0}:
+                    wrong = (byte, sorted(got, key=repr))
+                    break
+        except Undecided as e:
+            wrong = ("?", str(e))
+        R.require(wrong is None, fn, "pred:" + pn, "%s must be (bits & %s) == %s with %s = %#x; for the attribute byte %s it answers %s" % (pn, cn, cn, cn, m, hex(wrong[0]) if wrong and wrong[0] != "?" else "?", wrong[1] if wrong else None), fn.loc(0),
+                  okdetail="%s == ((bits & %#x) == %#x) for all 256 attribute bytes" % (pn, m, m))
     fn = F.fn("filesystem::attributes::Attributes::create_from_fat")
     t = ret(fn)
     R.require(t is not None and t[0] == "agg" and len(t[3]) == 1 and t[3][0][:2] == ("arg", 1), fn, "create_from_fat", "create_from_fat must wrap the byte unchanged, got %s" % (tstr(t) if t else None), fn.loc(0))
     fn = F.fn("filesystem::attributes::Attributes::set_archive")
-    st = [(b, fn.term_of_rvalue(s["rv"], b)) for b, i, s in fn.stmts() if s["k"] == "Assign" and s["p"]["proj"] and s["p"]["l"] == 1]
-    ok = len(st) == 1 and st[0][1][0] == "bin" and st[0][1][1] == "BitOr"
-    if ok:
-        other = [x for x in (st[0][1][2], st[0][1][3]) if not (x[0] == "place" and strip_refs(x[1])[:2] == ("arg", 1))]
-        vals = []
-        for x in other:
-            x = strip_refs(x)
-            vals += [d[1] if d[0] == "c" else None for d in (var_def_terms(fn, x[1]) if x[0] == "var" else [x])]
-        ok = len(other) == 1 and bool(vals) and all(v in (0, 0x20) for v in vals) and 0x20 in vals
-    R.require(ok, fn, "set_archive", "set_archive must OR the ARCHIVE bit (0x20) into the byte and touch nothing else", fn.loc(0))
+    wrong = None
+    try:
+        for byte in range(256):
+            for flag in (0, 1):
+                I, st, cell, outs = run1(fn, byte, [const(flag, 1)])
+                res = set()
+                for rv, s2 in outs:
+                    v = I.read_loc(s2, (cell[1], cell[2], cell[3], None))
+                    res.add(int_const(v[4][0]) if is_agg(v) and is_int(v[4][0]) else None)
+                if res != {byte | (0x20 if flag else 0)}:
+                    wrong = (byte, flag, sorted(res, key=repr))
+                    break
+            if wrong:
+                break
+    except Undecided as e:
+        wrong = ("?", "?", str(e))
+    R.require(wrong is None, fn, "set_archive", "set_archive must OR the ARCHIVE bit (0x20) into the byte and touch nothing else; set_archive(%s) on byte %s gives %s" % (wrong[1] if wrong else None, hex(wrong[0]) if wrong and wrong[0] != "?" else "?", wrong[2] if wrong else None), fn.loc(0))
 
 
 @rule("MT6", ["C15"], floor=5,
       doc="BPB field selection per the FAT specification: fat_size() is BPB_FATSz16 when that is non-zero and BPB_FATSz32 otherwise; total_blocks() is BPB_TotSec16 when non-zero and BPB_TotSec32 otherwise (the 32-bit field of a FAT16 volume with a 16-bit count is not meaningful); fs_info_block() is Some(BPB_FSInfo) exactly for FAT32; total_clusters() is the count computed at parse time")
 def mt6(F, R):
     from .poly import nkey
+    # decided on a boot sector whose 16-bit field is set to concrete values and whose other bytes are symbolic: the result is
+    # the 16-bit value when that is non-zero and (bit for bit) the little-endian 32-bit field otherwise - whichever private
+    # helpers / closures the selection is written with
+    from .absint import Interp, State, Undecided
+    from .absval import const, bits_of, is_int, int_const
+    from .rules_codec import data_struct, le_bits, fat_spec
+    S = fat_spec()["bpb"]
     for name, f16, f32 in (("fat_size", "fat_size16", "fat_size32"), ("total_blocks", "total_blocks16", "total_blocks32")):
         fn = F.fn("fat::bpb::Bpb::" + name)
-        alts = []
-        for d in fn.defs().get(0, []):
-            t = fn.term_of_rvalue(d[3], d[1]) if d[0] == "assign" else fn.call_term(d[2], d[1])
-            for (x, blks) in _alts(fn, t):
-                alts.append((x, [d[1]] + blks))
-        def is16(x):
-            k = nkey(x)
-            return isinstance(k, tuple) and k[0] == "call" and k[1] and k[1].endswith("Bpb::" + f16)
-        def is32(x):
-            k = nkey(x)
-            return isinstance(k, tuple) and k[0] == "call" and k[1] and k[1].endswith("Bpb::" + f32)
-        nz16 = lambda truth: (lambda g: g.kind == "bool" and g.term[0] == "cmp" and g.term[1] == "Eq" and g.truth is truth and ((is16(g.term[2]) and g.term[3][:2] == ("c", 0)) or (is16(g.term[3]) and g.term[2][:2] == ("c", 0))))
-        ok = len(alts) == 2
-        n16 = n32 = 0
-        for (x, blks) in alts:
-            if is16(x) and any(guarded(fn, b, nz16(False))[0] for b in blks):
-                n16 += 1
-            elif is32(x) and any(guarded(fn, b, nz16(True))[0] for b in blks):
-                n32 += 1
-        R.require(ok and n16 == 1 and n32 == 1, fn, "select:" + name, "%s() must be %s() if that is non-zero and %s() otherwise; got %s" % (name, f16, f32, [tstr(x) for x, _ in alts]), fn.loc(0))
+        o16, o32 = S[f16][0], S[f32][0]
+        problems = []
+        try:
+            for v16 in (0, 1, 5, 0x00FF, 0x0100, 0x8000, 0xFFFF):
+                I = Interp(F, mode="bv", max_paths=64)
+                st = State()
+                self_p, bytes_ = data_struct(I, st, F, "fat::bpb::Bpb", 512)
+                # overwrite the two bytes of the 16-bit field in the heap array
+                arrv = I.read_loc(st, (self_p[1], self_p[2], self_p[3], None))
+                dptr = arrv[4][[f["name"] for f in F.adts["fat::bpb::Bpb"]["variants"][0]["fields"]].index("data")]
+                cells = list(I.read_loc(st, (dptr[1], dptr[2], dptr[3], None))[1])
+                cells[o16], cells[o16 + 1] = const(v16 & 0xFF, 8), const(v16 >> 8, 8)
+                I.write_loc(st, (dptr[1], dptr[2], dptr[3], None), ("arr", tuple(cells)))
+                outs = I.run(fn, [self_p], st, 0)
+                for rv, s2 in outs:
+                    if not is_int(rv):
+                        problems.append("%s = %#x: result is not an integer" % (f16, v16))
+                        continue
+                    got = bits_of(rv)
+                    want = tuple((v16 >> k) & 1 for k in range(32)) if v16 else le_bits(cells, o32, 4)
+                    if tuple(got[:32]) != tuple(want[:32]):
+                        problems.append("%s = %#x: returns %s" % (f16, v16, "something other than the 16-bit value" if v16 else "something other than %s" % f32))
+                if not outs:
+                    problems.append("%s = %#x: no result" % (f16, v16))
+        except Undecided as e:
+            problems.append("cannot evaluate: %s" % e)
+        R.require(not problems, fn, "select:" + name, "%s() must be %s() if that is non-zero and %s() otherwise; %s" % (name, f16, f32, "; ".join(problems[:3])), fn.loc(0),
+                  okdetail="%s == (%s != 0 ? %s : %s) for 7 values of the 16-bit field, other bytes symbolic" % (name, f16, f16, f32))
     fn = F.fn("fat::bpb::Bpb::fs_info_block")
     alts = []
     for d in fn.defs().get(0, []):
@@ -1183,7 +1238,7 @@ def _is_block_mut_ty(ty):
     if not ty.startswith("&mut "):
         return False
     inner = ty[5:].strip()
-    return inner.startswith("[u8") or inner in ("blockdevice::Block", "Block") or inner.startswith("[blockdevice::Block")
+    return inner.startswith("[u8") or inner in ("u8", "blockdevice::Block", "Block") or inner.startswith("[blockdevice::Block")
 
 
 def block_mutations(fn):
